@@ -196,18 +196,10 @@ func (l *orderColumnsRow) compare(tp Type, lval, rval Column, reverse bool) int 
 }
 
 func (l *orderColumnsRow) compareBytes(lval, rval Column, reverse bool) int {
-	var (
-		lbval []byte
-		rbval []byte
-	)
-	switch lval.(type) {
-	case []byte:
-		lbval = lval.([]byte)
-		rbval = rval.([]byte)
-	case string:
-		lbval = []byte(lval.(string))
-		rbval = []byte(rval.(string))
-	default:
+	// The two values may have different representation ([]byte or string)
+	lbval, lok := convertToByteArray(lval)
+	rbval, rok := convertToByteArray(rval)
+	if !lok || !rok {
 		return 0
 	}
 	if reverse {
@@ -217,21 +209,10 @@ func (l *orderColumnsRow) compareBytes(lval, rval Column, reverse bool) int {
 }
 
 func (l *orderColumnsRow) compareBool(lval, rval Column, reverse bool) int {
-	var (
-		lbool bool
-		rbool bool
-	)
-	switch lval.(type) {
-	case bool:
-		lbool = lval.(bool)
-		rbool = rval.(bool)
-	case string:
-		lbool = lval.(string) == "true"
-		rbool = rval.(string) == "true"
-	case []byte:
-		lbool = bytes.Equal(lval.([]byte), []byte("true"))
-		rbool = bytes.Equal(rval.([]byte), []byte("true"))
-	default:
+	// The two values may have different representation
+	lbool, lok := orderBool(lval)
+	rbool, rok := orderBool(rval)
+	if !lok || !rok {
 		return 0
 	}
 	lint := 0
@@ -260,75 +241,64 @@ func (l *orderColumnsRow) compareBool(lval, rval Column, reverse bool) int {
 }
 
 func (l *orderColumnsRow) compareNumber(lval, rval Column, reverse bool) int {
-	var (
-		lint, rint     int64
-		lfloat, rfloat float64
-		err            error
-		isFloat        bool = false
-	)
-	switch lval.(type) {
-	case int:
-		lint = int64(lval.(int))
-		rint = int64(rval.(int))
-	case int16:
-		lint = int64(lval.(int16))
-		rint = int64(rval.(int16))
-	case int32:
-		lint = int64(lval.(int32))
-		rint = int64(rval.(int32))
-	case int64:
-		lint = lval.(int64)
-		rint = rval.(int64)
-	case uint:
-		lint = int64(lval.(uint))
-		rint = int64(rval.(uint))
-	case uint16:
-		lint = int64(lval.(uint16))
-		rint = int64(rval.(uint16))
-	case uint32:
-		lint = int64(lval.(uint32))
-		rint = int64(rval.(uint32))
-	case uint64:
-		lint = int64(lval.(uint64))
-		rint = int64(rval.(uint64))
-	case float32:
-		lfloat = float64(lval.(float32))
-		rfloat = float64(rval.(float32))
-		isFloat = true
-	case float64:
-		lfloat = lval.(float64)
-		rfloat = rval.(float64)
-		isFloat = true
-	case []byte:
-		if lint, err = strconv.ParseInt(string(lval.([]byte)), 10, 64); err == nil {
-			if rint, err = strconv.ParseInt(string(rval.([]byte)), 10, 64); err == nil {
-				return l.compareInt(lint, rint, reverse)
-			}
-		}
-		if lfloat, err = strconv.ParseFloat(string(lval.([]byte)), 64); err == nil {
-			if rfloat, err = strconv.ParseFloat(string(rval.([]byte)), 64); err == nil {
-				return l.compareFloat(lfloat, rfloat, reverse)
-			}
-		}
-		return 0
-	case string:
-		if lint, err = strconv.ParseInt(lval.(string), 10, 64); err == nil {
-			if rint, err = strconv.ParseInt(rval.(string), 10, 64); err == nil {
-				return l.compareInt(lint, rint, reverse)
-			}
-		}
-		if lfloat, err = strconv.ParseFloat(lval.(string), 64); err == nil {
-			if rfloat, err = strconv.ParseFloat(rval.(string), 64); err == nil {
-				return l.compareFloat(lfloat, rfloat, reverse)
-			}
-		}
+	// The two values may have different representation, such as a sum
+	// that is integer in one group and float in another one
+	lint, lfloat, lisFloat, lok := orderNumber(lval)
+	rint, rfloat, risFloat, rok := orderNumber(rval)
+	if !lok || !rok {
 		return 0
 	}
-
-	if isFloat {
+	if lisFloat || risFloat {
 		return l.compareFloat(lfloat, rfloat, reverse)
 	}
 	return l.compareInt(lint, rint, reverse)
+}
+
+func orderBool(val Column) (bool, bool) {
+	switch v := val.(type) {
+	case bool:
+		return v, true
+	case string:
+		return v == "true", true
+	case []byte:
+		return bytes.Equal(v, []byte("true")), true
+	}
+	return false, false
+}
+
+func orderNumber(val Column) (int64, float64, bool, bool) {
+	switch v := val.(type) {
+	case int:
+		return int64(v), float64(v), false, true
+	case int16:
+		return int64(v), float64(v), false, true
+	case int32:
+		return int64(v), float64(v), false, true
+	case int64:
+		return v, float64(v), false, true
+	case uint:
+		return int64(v), float64(v), false, true
+	case uint16:
+		return int64(v), float64(v), false, true
+	case uint32:
+		return int64(v), float64(v), false, true
+	case uint64:
+		return int64(v), float64(v), false, true
+	case float32:
+		return int64(v), float64(v), true, true
+	case float64:
+		return int64(v), v, true, true
+	case []byte:
+		return orderNumber(string(v))
+	case string:
+		if ival, err := strconv.ParseInt(v, 10, 64); err == nil {
+			return ival, float64(ival), false, true
+		}
+		if fval, err := strconv.ParseFloat(v, 64); err == nil {
+			return int64(fval), fval, true, true
+		}
+	}
+	return 0, 0, false, false
 }
 
 func (l *orderColumnsRow) compareInt(lval, rval int64, reverse bool) int {
